@@ -10,7 +10,7 @@ import (
 )
 
 func singleFlight(r *simrt.Run, tier string) {
-	w := &world{r: r, active: map[string]*exec{}, t0: time.Now()}
+	w := newWorld(r)
 	ev := drawEnv(r, tier, true)
 	groups := make([]syncx.SingleFlight, ev.nGroups)
 	for i := range groups {
@@ -46,7 +46,11 @@ func singleFlight(r *simrt.Run, tier string) {
 		w.checkSF(c)
 	}
 	w.nested = invoke
-	var tasks []*simrt.Task
+	if ev.churn != nil {
+		r.Probe("churn-singleflight")
+	}
+	ev.churnBefore(invoke)
+	tasks := ev.churnStart(r, invoke)
 	for i := 0; i < ev.nTasks; i++ {
 		i := i
 		tasks = append(tasks, r.Go(fmt.Sprintf("client%d", i), func() {
@@ -98,8 +102,10 @@ func (w *world) checkSF(c *call) {
 	}
 	// the call did not run its function: which execution produced what it got?
 	var src, stale *exec
-	for _, e := range w.execs {
-		if e.key != c.key || e.end == 0 || e.panicked || !sameAny(c.val, e.val) || !sameErr(c.err, e.err) {
+	es := w.execsBy[c.key]
+	for i := len(es) - 1; i >= 0; i-- { // latest first: the usual source is a recent execution
+		e := es[i]
+		if e.end == 0 || e.panicked || !sameAny(c.val, e.val) || !sameErr(c.err, e.err) {
 			continue
 		}
 		if overlaps(c, w.calls[e.leader]) {
